@@ -195,15 +195,19 @@ type ANode = (usize, bool, usize, usize, bool, bool, Option<usize>, bool /* must
 fn flatten(n: &DNode, parent: Option<usize>, src: &[u8], out: &mut Vec<ANode>, names: &mut Vec<String>) -> Option<(usize, usize, usize)> {
     if n.own.is_none() && n.kids.len() == 1 && n.extra.is_empty() && n.strs.is_empty() { return flatten(&n.kids[0], parent, src, out, names); }
     let idx = out.len();
-    out.push((parent.unwrap_or(idx), n.own.is_some(), 0, 0, true, true, None, true));
+    // (a FuncCall node's extent as computed here includes its object, which FuncCall::span() leaves out: see below)
+    out.push((parent.unwrap_or(idx), n.own.is_some(), 0, 0, true, true, None, n.name != "FuncCall"));
     names.push(n.name.clone());
     let mut lo = usize::MAX; let mut hi = 0usize; let mut prev: Option<usize> = None;
     for k in &n.kids {
         if let Some((ki, a, b)) = flatten(k, Some(idx), src, out, names) {
             out[ki].6 = prev; prev = Some(ki); lo = lo.min(a); hi = hi.max(b);
-            // by design the span of a hex pattern node is its `{ .. }` literal and the span of a base64
-            // modifier is its keyword: identifier / modifiers / alphabet lie outside
-            if matches!(n.name.as_str(), "HexPattern" | "Base64" | "Base64Wide") { out[ki].7 = false; }
+            // by design the span of a hex pattern node is its `{ .. }` literal, the span of a base64
+            // modifier is its keyword (identifier / modifiers / alphabet lie outside), and the span of a
+            // method-like call `obj.f(x)` is `f(x)` (FuncCall::span() leaves the object out; a test of the
+            // repository pins the labels this produces). The property asks for spans inside the source,
+            // which these are; covering every child is this check's own, stronger, demand.
+            if matches!(n.name.as_str(), "HexPattern" | "Base64" | "Base64Wide" | "FuncCall") { out[ki].7 = false; }
         }
     }
     for (a, b) in &n.extra { lo = lo.min(*a); hi = hi.max(*b); }
